@@ -85,6 +85,19 @@ def encErr {α : Type} (f : α → Json) : Except Err α → Json
   | .ok a => f a
   | .error e => Json.mkObj [("error", e.toString)]
 
+/-! ### property focus -/
+
+/-- The property the running check is about (`in.prop`, set by `vrcore -prop Cxx`); `""` = all. -/
+def focusOf (inp : Json) : String := optStrField inp "prop"
+
+/-- Signature of the first failing predicate that belongs to the focused property (sigs are
+    `"Cxx:what"`); `""` when none fails.  A check only fails on its own property's predicates;
+    disagreement between model and real output (`agree`) stays common to all. -/
+def pickSig (focus : String) (checks : List (Bool × String)) : String :=
+  match checks.find? (fun c => !c.1 && (focus == "" || c.2.startsWith (focus ++ ":"))) with
+  | some c => c.2
+  | none => ""
+
 /-! ### shared predicates -/
 
 def assetsOf (ps : List Posting) : List String := (ps.map (·.asset)).eraseDups
@@ -134,10 +147,9 @@ def handleVolupd : Handler := fun inp out => do
   let gAcc ← strArrField out "accounts"
   let gDest ← (← arrField out "destinations").mapM decPair
   let agree := gPanic == "" && gUpd == model && gAcc == mAccounts && gDest == mDest
-  let prop := gPanic == "" && conservedUpdates ps gUpd && updatesAreFold ps gUpd
-  let sig := if !prop && gPanic != "" then "C01:VolumeUpdates-panic"
-             else if !conservedUpdates ps gUpd then "C01:VolumeUpdates-not-conserved"
-             else if !prop then "C02:VolumeUpdates-not-fold" else ""
+  let sig := pickSig (focusOf inp) [(conservedUpdates ps gUpd, "C01:VolumeUpdates-not-conserved"),
+    (updatesAreFold ps gUpd, "C02:VolumeUpdates-not-fold")]
+  let prop := sig == ""
   pure { model := Json.mkObj [("updates", encVols model), ("accounts", jStrs mAccounts)],
          agree, prop, propModel := conservedUpdates ps model && updatesAreFold ps model,
          nontrivial := ps.length ≥ 2 && (involvedOf ps).length ≥ 2,
@@ -213,11 +225,11 @@ def handlePcv : Handler := fun inp out => do
   let (preOk, postOk, movesOk) := commitProps prior ps gPcv gPre gMoves
   let consOk := conservedUpdates ps gUpsert
   let lenOk := gMoves.length == 2 * ps.length
-  let prop := ok && consOk && preOk && postOk && movesOk && datesOk && lenOk
-  let sig := if !ok then "C03:commit-error-or-panic" else if !consOk then "C01:upsert-rows-not-conserved"
-    else if !preOk then "C03:pre-not-state-before" else if !postOk then "C03:pre-plus-own-not-post"
-    else if !movesOk then "C03:moves-not-running" else if !datesOk then "C03:moves-dates-or-id"
-    else if !lenOk then "C03:moves-count" else ""
+  let sig := if !ok then "C03:commit-error-or-panic" else
+    pickSig (focusOf inp) [(consOk, "C01:upsert-rows-not-conserved"), (preOk, "C03:pre-not-state-before"),
+      (postOk, "C03:pre-plus-own-not-post"), (movesOk, "C03:moves-not-running"), (datesOk, "C03:moves-dates-or-id"),
+      (lenOk, "C03:moves-count")]
+  let prop := sig == ""
   let mMoves := match m.moves with | .ok ms => ms | .error _ => []
   let mPre := match m.pre with | .ok p => p | .error _ => []
   let (a, b, c) := commitProps prior ps m.pcv mPre mMoves
@@ -273,7 +285,8 @@ def handlePcvOps : Handler := fun inp out => do
     | .error _ => true
     | .ok r => a.isEmpty || applyPostings r ps == .ok a
   let aliasOk := match gSub with | .error _ => true | .ok _ => unchanged
-  let prop := subOk && aliasOk
+  let sigOps := pickSig (focusOf inp) [(subOk, "C03:subtract-not-inverse"), (aliasOk, "C03:subtract-mutates-receiver")]
+  let prop := sigOps == ""
   let tag := fun (n : String) (r : Except Err PCV) => match r with | .ok _ => n ++ ":ok" | .error _ => n ++ ":panic"
   pure { model := Json.mkObj [("subtract", encErr encVols mSub), ("merge", encErr encVols mMerge),
                               ("addInput", encErr encVols mAddIn), ("addOutput", encErr encVols mAddOut),
@@ -281,7 +294,7 @@ def handlePcvOps : Handler := fun inp out => do
          agree, prop, propModel := true,
          nontrivial := !ps.isEmpty && !a.isEmpty,
          tags := [tag "subtract" mSub, tag "pcev" mPcev, tag "addInput" mAddIn] ++ (if a.isEmpty then ["empty-receiver"] else []),
-         sig := if !subOk then "C03:subtract-not-inverse" else if !aliasOk then "C03:subtract-mutates-receiver" else "",
+         sig := sigOps,
          note := if prop then "" else "SubtractPostings predicate fails on the real output" }
 
 /-! ### reverse -/
@@ -358,10 +371,10 @@ def handleReverse : Handler := fun inp out => do
      gTx.timestamp == (if atEff then (if ts == 0 then "zero" else toString ts) else toString rev) &&
      gTx.reference == "" && !gTx.hasId)
   let noPanic := gPanic == ""
-  let prop := revShape && neutral && txShape && noPanic
-  let sig := if !revShape then "C15:reverse-shape" else if !neutral then "C15:not-balance-neutral"
-    else if !txShape then "C15:revert-tx-shape"
-    else if !noPanic then (if force then "C15:revert-forced-panic" else "C15:revert-nonforced-nil-balance-panic") else ""
+  let sig := pickSig (focusOf inp) [(revShape, "C15:reverse-shape"), (neutral, "C15:not-balance-neutral"),
+    (txShape, "C15:revert-tx-shape"),
+    (noPanic, if force then "C15:revert-forced-panic" else "C15:revert-nonforced-nil-balance-panic")]
+  let prop := sig == ""
   let mOk := match mRes with | .ok _ => true | .error _ => false
   pure { model := Json.mkObj [("reversed", encPostings (reversePostings ps)), ("err", mErr),
                               ("queried", Json.arr (queried.map fun k => Json.arr #[Json.str k.1, Json.str k.2]).toArray),
@@ -401,7 +414,7 @@ def decHStep (j : Json) : Except String HStep := do
          failed := optStrField j "panic" != "" || optStrField j "err" != "" }
 
 /-- Walk the history: abstract store step vs. real step, and the fold predicates on the real values. -/
-def histWalk : Store → List TxRec → List HTx → List HStep → Nat → (Bool × Bool × String)
+def histWalk (focus : String) : Store → List TxRec → List HTx → List HStep → Nat → (Bool × Bool × String)
   | _, _, [], [], _ => (true, true, "")
   | st, recs, t :: ts, g :: gs, i =>
     let tin : TxIn := { postings := t.postings, timestamp := t.timestamp, insertedAt := t.insertedAt }
@@ -422,18 +435,18 @@ def histWalk : Store → List TxRec → List HTx → List HStep → Nat → (Boo
         t.postings.all (fun p => (g.pcv.get? p.srcKey).isSome && (g.pcv.get? p.dstKey).isSome)
       let c03b := g.pre.all (fun (k, v) => v == volumesOf recs k) && g.pre.map (·.1) == g.pcv.map (·.1)
       let c03c := runningMoves g.pre t.postings == .ok (toMoveList g.moves)
-      let sig := if g.failed then "C03:commit-error-or-panic" else if !c01 then "C01:table-not-conserved"
-        else if !c02 then "C02:table-not-fold" else if !c03a then "C03:pcv-not-state-after"
-        else if !c03b then "C03:pre-not-state-before" else if !c03c then "C03:moves-not-running" else ""
+      let sig := if g.failed then "C03:commit-error-or-panic" else
+        pickSig focus [(c01, "C01:table-not-conserved"), (c02, "C02:table-not-fold"), (c03a, "C03:pcv-not-state-after"),
+          (c03b, "C03:pre-not-state-before"), (c03c, "C03:moves-not-running")]
       if !agree then (false, sig == "", if sig == "" then s!"step {i}: disagreement" else sig)
       else if sig != "" then (true, false, sig)
-      else histWalk st' recs' ts gs (i + 1)
+      else histWalk focus st' recs' ts gs (i + 1)
   | _, _, _, _, _ => (false, true, "length mismatch")
 
 def handleHistfold : Handler := fun inp out => do
   let txs ← (← arrField inp "txs").mapM decHTx
   let steps ← (← arrField out "steps").mapM decHStep
-  let (agree, prop, note) := histWalk {} [] txs steps 0
+  let (agree, prop, note) := histWalk (focusOf inp) {} [] txs steps 0
   -- point-in-time conservation on the Spec folds of this history (both modes, every grid instant)
   let recs := (txs.zipIdx).map fun (t, i) =>
     ({ id := i + 1, postings := t.postings, timestamp := t.timestamp, insertedAt := t.insertedAt } : TxRec)
